@@ -81,6 +81,13 @@ class C03(E1Check):
     def bounds(self):
         return {"N": 3, "D": 4} if self.tier == "quick" else {"N": 4, "D": 5, "max_states": 30000}
 
+    def configs(self):
+        cfgs = super().configs()
+        if self.tier == "quick":
+            for c in cfgs:  # quick: file-backed configurations one level shallower
+                c["D"] = 3 if c["storage"] == "mem" else 3
+        return cfgs
+
     def budget(self):
         return 600 if self.tier == "quick" else 3 * 3600
 
